@@ -53,6 +53,28 @@ theorem chipProgram_eq (chip regs : Bytes) (hc : chip.length = 14) (hr : 14 ≤ 
     rw [List.getElem?_eq_getElem (by omega)]
     rfl
 
+theorem sel_small : ∀ k, k < 14 → ((BitVec.ofNat 8 k) &&& (0x0F : Byte)).toNat = k := by decide
+
+theorem viaPorts_chip (regs : Bytes) : ∀ (l : List Nat) (m : Machine), (∀ k ∈ l, k < 14) →
+    (l.foldl (fun m k => (m.aySelect (BitVec.ofNat 8 k)).ayWrite (regs.getD k 0)) m).ayChip
+      = l.foldl (fun ch k => chipWrite ch k (regs.getD k 0)) m.ayChip := by
+  intro l
+  induction l with
+  | nil => intro m _; rfl
+  | cons a l ih =>
+    intro m h
+    simp only [List.foldl_cons]
+    rw [ih _ (fun k hk => h k (by simp [hk]))]
+    have ha := sel_small a (h a (by simp))
+    simp only [Machine.ayWrite, Machine.aySelect, ha]
+
+/-- Programming through the ports leaves the chip with the first 14 bytes given. -/
+theorem ayViaPorts_chip (m : Machine) (regs : Bytes) (hc : m.ayChip.length = 14) (hr : 14 ≤ regs.length) :
+    (m.ayViaPorts regs).ayChip = regs.take 14 := by
+  unfold Machine.ayViaPorts
+  rw [viaPorts_chip regs _ m (by intro k hk; simpa using hk)]
+  exact chipProgram_eq _ _ hc hr
+
 /-! ### chunk-by-chunk simulation (repaired code, `HALTED` read as "PC at the HALT opcode") -/
 
 /-- what the refinement needs of a receiving machine while the chunks are applied -/
@@ -455,5 +477,24 @@ theorem foldl_applyChunk_model (conv : Spec.HaltConv) (inflate : Bytes → Optio
   induction cs with
   | nil => intro a0; rfl
   | cons c cs ih => intro a0; rw [List.foldl_cons, ih, applyChunk_model]
+
+theorem describeSzx_model (conv : Spec.HaltConv) (inflate : Bytes → Option Bytes) (f : Bytes)
+    (prev a : Spec.AState) (hd : Spec.describeSzx conv inflate f prev = some a) :
+    ∃ mid, Spec.szxMachine f = some mid ∧ a.model = Spec.kindOfMid mid := by
+  unfold Spec.describeSzx at hd
+  cases hmid : Spec.szxMachine f with
+  | none => rw [hmid] at hd; cases hd
+  | some mid =>
+    rw [hmid] at hd
+    simp only at hd
+    cases hcs : Spec.parseChunks f.length (f.drop 8) with
+    | none => rw [hcs] at hd; cases hd
+    | some cs =>
+      rw [hcs] at hd
+      simp only at hd
+      split at hd
+      · simp only [Option.some.injEq] at hd
+        exact ⟨mid, rfl, by rw [← hd, foldl_applyChunk_model]⟩
+      · cases hd
 
 end ZxVerif.Snap
